@@ -10,7 +10,7 @@ import json, os, shutil, subprocess, sys, time
 pid, mk = sys.argv[1], sys.argv[2]
 extra = sys.argv[3:]
 wt = "/tmp/seed_%s" % pid
-sub = "_seed5" if mk.startswith("v") else "_seed4" if mk.startswith("q") else "_seed3" if mk.startswith("k") else "_seed2" if mk.startswith("n") else "_seed"
+sub = "_seed6" if mk.startswith("w") else "_seed5" if mk.startswith("v") else "_seed4" if mk.startswith("q") else "_seed3" if mk.startswith("k") else "_seed2" if mk.startswith("n") else "_seed"
 src = os.path.join(wt, sub, mk)
 dst = os.path.join("/verif/seeded", "%s_%s" % (pid, mk))
 os.makedirs(dst, exist_ok=True)
@@ -37,7 +37,7 @@ def demo():
 
 
 res = {"property": pid, "id": mk}
-sh("git checkout -- . ; git clean -fdq -e _seed -e _seed2 -e _seed3 -e _seed4 -e _seed5")
+sh("git checkout -- . ; git clean -fdq -e _seed -e _seed2 -e _seed3 -e _seed4 -e _seed5 -e _seed6")
 rc, out = sh("git apply --check %s/%s/patch.diff && git apply %s/%s/patch.diff && git diff --stat" % (sub, mk, sub, mk))
 res["applies"] = rc == 0
 res["diffstat"] = out.strip().splitlines()[-1] if out.strip() else ""
@@ -72,7 +72,7 @@ for cid in ([] if os.environ.get("EVAL_CONFIRM_ONLY") else [pid] + extra):
             replay_what.append("?" + str(e))
     checks[cid] = {"rc": p.returncode, "wall_s": round(time.time() - t0), "violation_lines": viol, "what": replay_what}
 res["our_checks"] = checks
-sh("git checkout -- . ; git clean -fdq -e _seed -e _seed2 -e _seed3 -e _seed4 -e _seed5")
+sh("git checkout -- . ; git clean -fdq -e _seed -e _seed2 -e _seed3 -e _seed4 -e _seed5 -e _seed6")
 rcs, tail = demo()
 res["demo_passes_without_patch"] = all(r == 0 for r in rcs)
 res["demo_without_patch"] = {"rcs": rcs, "tail": tail}
